@@ -105,20 +105,21 @@ func InjectDiagnostics(content string, diags []Diagnostic, color output.Color) s
 				if !ok {
 					continue
 				}
+				// A value can have more than one position range on a line (escaped quotes split it),
+				// every column gets exactly one character.
+				var before, inside bool
 				for _, pos := range diagPositions[i] {
 					if pos.Line != lineIndex+1 {
 						continue
 					}
-					before := pos.FirstColumn > columnIndex+1
-					inside := pos.FirstColumn <= columnIndex+1 && pos.LastColumn >= columnIndex+1
-					switch {
-					case before:
-						nextLine[i].WriteRune(' ')
-					case inside && disablePoints[i]:
-						nextLine[i].WriteRune(' ')
-					case inside && !disablePoints[i]:
-						nextLine[i].WriteRune('^')
-					}
+					before = before || pos.FirstColumn > columnIndex+1
+					inside = inside || (pos.FirstColumn <= columnIndex+1 && pos.LastColumn >= columnIndex+1)
+				}
+				switch {
+				case inside && !disablePoints[i]:
+					nextLine[i].WriteRune('^')
+				case inside || before:
+					nextLine[i].WriteRune(' ')
 				}
 			}
 		}
